@@ -138,7 +138,7 @@ theorem pollDispatch_timer (w w' : World) (op : Nat) (rest : List K) (hI : Timer
         all_goals first
           | (cases h; done)
           | (cases h
-             apply timerInv_objs (w := setObj { w with pending := w.pending - 1 } { o with evR := false, tstate := .ready, cancelledRep := false }) _ rfl
+             apply timerInv_objs (w := setObj { w with pending := w.pending - 1 } { o with evR := false, tstate := .ready, cancelledRep := (o.cancelledRep && info.kind != OpKind.timerRep) }) _ rfl
              apply timerInv_setObj (timerInv_objs hI rfl)
              intro hk; exact ⟨by simp, (ho hk).2⟩)
           | (cases h
